@@ -240,8 +240,15 @@ impl Driver {
                 if let Some(edits) = op.get("set").and_then(|v| v.as_array()) {
                     for edit in edits {
                         let pointer = edit.get(0).and_then(|v| v.as_str()).unwrap_or("");
-                        match doc.pointer_mut(pointer) {
-                            Some(slot) => *slot = edit.get(1).cloned().unwrap_or(Value::Null),
+                        let value = edit.get(1).cloned().unwrap_or(Value::Null);
+                        if let Some(slot) = doc.pointer_mut(pointer) {
+                            *slot = value;
+                            continue;
+                        }
+                        // a new key of an existing object
+                        let (parent, key) = match pointer.rfind('/') { Some(at) => (&pointer[..at], &pointer[at + 1..]), None => ("", pointer) };
+                        match doc.pointer_mut(parent).and_then(|p| p.as_object_mut()) {
+                            Some(map) => { map.insert(key.to_string(), value); },
                             None => return json!({"driver_error": format!("no {} in the configuration", pointer)})
                         }
                     }
